@@ -51,6 +51,7 @@ def run_tlc(tmax, workdir):
     dump = os.path.join(workdir, "states")
     env = dict(os.environ)
     env.pop("PYTHONPATH", None)
+    env["JAVA_TOOL_OPTIONS"] = f"-Djava.io.tmpdir={workdir}"  # TLC unpacks its modules into a tmp dir
     r = subprocess.run(["tlc", "-workers", "1", "-noGenerateSpecTE", "-metadir",
                         os.path.join(workdir, "meta"), "-dump", dump, "MCRestart"],
                        cwd=workdir, capture_output=True, text=True, timeout=1500, env=env)
